@@ -49,7 +49,7 @@ class SV:
 
 SORT_OF_KIND = {'int': Int, 'bool': Bool, 'ppat': PPat, 'mpat': MPat, 'idl': IdL, 'pmap': PMap, 'mmap': MMap,
                 'name': Int, 'intset': z3.SetSort(Int), 'term': Term, 'tlist': TL, 'mlist': ML,
-                'stack': TL, 'mem': TL, 'claims': ML, 'str': IdL, 'char': Int, 'intlist': IdL, 'plist': PTL, 'pclaims': PCL, 'bytes': IdL}
+                'stack': TL, 'mem': TL, 'claims': ML, 'str': IdL, 'char': Int, 'intlist': IdL, 'plist': PTL, 'pclaims': PCL, 'bytes': IdL, 'pterm': PTerm}
 
 
 class Obligation:
